@@ -9,13 +9,18 @@ import LiquerModel.EvalO
 
 namespace Liquer
 
-/-- consecutive `store_metadata` writes of one thread to the same key are one scheduling unit (the implementation issues
-several progress updates in a row; only the last status survives) -/
+/-- a run of consecutive `store_metadata` writes of one thread is one scheduling unit (the implementation issues many progress
+updates in a row — one per log event and parent context); within a run only the last status per key survives -/
+def setMeta (l : List (Str × Str)) (k st : Str) : List (Str × Str) :=
+  if l.any (fun e => e.1 == k) then l.map (fun e => if e.1 == k then (k, st) else e) else l ++ [(k, st)]
+
 def canonTrace : List COp → List COp
-  | .storeMeta k s :: .storeMeta k' s' :: rest =>
-    if k == k' then canonTrace (.storeMeta k' s' :: rest) else .storeMeta k s :: canonTrace (.storeMeta k' s' :: rest)
-  | op :: rest => op :: canonTrace rest
   | [] => []
+  | .storeMeta k st :: rest =>
+    (match canonTrace rest with
+     | .metas l :: more => .metas (if l.any (fun e => e.1 == k) then l else (k, st) :: l) :: more
+     | more => .metas [(k, st)] :: more)
+  | op :: rest => op :: canonTrace rest
 
 structure Thread where
   q : Query
@@ -27,7 +32,7 @@ structure Thread where
 
 /-- the thread's evaluation against the answers received so far -/
 def Thread.run (env : Env) (t : Thread) : OW × Outcome :=
-  evalQO env (evalFuel t.raw) { answers := t.answers } t.q t.raw .none none true
+  evalQO env (evalFuel t.raw) { answers := t.answers } t.q t.raw .none none true []
 
 def Thread.finished (t : Thread) : Bool := t.result.isSome
 
@@ -41,6 +46,7 @@ def stepThread (env : Env) (shared : World) (t : Thread) : World × Thread :=
   | some (.storeMeta k s) => (shared.storeMeta k s, { t with done := t.done + 1 })
   | some (.store st) => (shared.store st, { t with done := t.done + 1 })
   | some (.remove k) => (shared.remove k, { t with done := t.done + 1 })
+  | some (.metas l) => (l.foldl (fun w e => w.storeMeta e.1 e.2) shared, { t with done := t.done + 1 })
 
 structure Config where
   shared : World
